@@ -46,6 +46,8 @@ MUTABLE_CTORS = {"list", "dict", "set", "deque", "defaultdict", "OrderedDict", "
                  "MultiDict", "WeakValueDictionary", "weakref.WeakValueDictionary", "WeakSet", "weakref.WeakSet"}
 BUILTIN_VALUE_TYPES = {"bytes", "str", "int", "float", "tuple", "frozenset", "bytearray", "list", "dict", "set",
                        "complex"}
+# generic spellings of the builtins (`class MultiDict(Dict[_K, _T])`)
+_TYPING_ALIASES = {"Dict": "dict", "List": "list", "Tuple": "tuple", "Set": "set", "FrozenSet": "frozenset"}
 COPY_DUNDERS = ("__copy__", "__deepcopy__", "__getstate__", "__reduce__", "__reduce_ex__")
 CACHE_NAMES = {"lru_cache", "cache", "functools.lru_cache", "functools.cache"}
 
@@ -328,8 +330,9 @@ def builtin_eq_ne(repo: Repo, rels: Iterable[str]) -> List[Finding]:
         builtin_bases = set()
         for c in chain:
             for b in c.base_names:
-                if b.split(".")[-1] in BUILTIN_VALUE_TYPES and repo.resolve_class(b, c.module) is None:
-                    builtin_bases.add(b.split(".")[-1])
+                name = _TYPING_ALIASES.get(b.split(".")[-1], b.split(".")[-1])
+                if name in BUILTIN_VALUE_TYPES and repo.resolve_class(b, c.module) is None:
+                    builtin_bases.add(name)
         if builtin_bases:
             out.append((ci.module, ci.methods["__eq__"].node, ci.name,
                         f"{ci.name} overrides __eq__ on top of builtin {'/'.join(sorted(builtin_bases))} without __ne__: "
